@@ -660,6 +660,29 @@ def check_decisions(ctx, rng):
     return avail
 
 
+# ----------------------------------------------------------------------------------------------- status across modes
+
+def check_status_across_modes(ctx, rng):
+    """the status is a function of 'something matched', not of the output mode — including -U -v with the summary
+    modes (defect D13, repaired by the printers' owner)"""
+    root = K.mktree("c15")
+    with open(os.path.join(root, "f"), "w") as f:
+        f.write("a\nb\nc\n")
+    os.chmod(os.path.join(root, "f"), 0o644)
+    pats = [(["-e", "a"], 0), (["-e", "zzz"], 1), (["-U", "-v", "-e", "a\\n"], 0), (["-v", "-e", "[abc]"], 1),
+            (["-U", "-e", "b\\nc"], 0), (["-U", "-v", "-e", "a\\nb\\nc\\n"], 1)]
+    modes = [[], ["-c"], ["-l"], ["-q"], ["--json"], ["--count-matches"], ["-o"]]
+    jobs = [(p, want, m, j) for p, want in pats for m in modes for j in ("-j1", "-j3")]
+    res = K.pmap(lambda x: K.run_rg(["--color", "never", x[3]] + x[2] + x[0] + ["f"], root), jobs)
+    for (p, want, m, j), r in zip(jobs, res):
+        ctx.note_case("xmode" + repr((p, m, j)), True)
+        if r["status"] != want or r["err"]:
+            ctx.violation("status across output modes: rg %s %s %s f exits %d, expected %d" % (
+                j, " ".join(m), " ".join(p), r["status"], want),
+                dict(kind="xmode", pattern=p, mode=m, threads=j, status=r["status"], out=repr(r["out"]), err=repr(r["err"])))
+    K.rmtree(root)
+
+
 # ----------------------------------------------------------------------------------------------- entry points
 
 def corpus():
@@ -700,6 +723,7 @@ def run(ctx):
                        "-j1..8, stdout closed after k bytes; model evaluated for every breaking point.")
     avail = check_decisions(ctx, rng)
     check_invalid_args(ctx, rng)
+    check_status_across_modes(ctx, rng)
     check_fault_scenarios(ctx, corpus(), avail)
     n = ctx.count(400)
     check_fault_scenarios(ctx, [gen_scenario(rng) for _ in range(n)], avail)
